@@ -117,7 +117,7 @@ class MpReachNLRI(Attribute):
                 while nlri_bin:
                     length = ord(nlri_bin[0:1])
                     if length >> 4 == 0xf and len(nlri_bin) > 2:
-                        length = struct.unpack('!H', nlri_bin[:2])[0]
+                        length = struct.unpack('!H', nlri_bin[:2])[0] & 0x0fff
                         nlri_tmp = nlri_bin[2: length + 2]
                         nlri_bin = nlri_bin[length + 2:]
                     else:
